@@ -108,6 +108,21 @@ theorem fail_clean (root : Conf.Forest) (str : Option (List UInt8)) (sect opt : 
       · exact absurd (by assumption) hn
       · exact absurd h hn
 
+/-- the same for the stdio front end `mpt_node_parse` (with or without logger): a refused restriction
+    text or a failed parse returns a negative code and the children of the target as they were -/
+theorem fail_clean_node_parse (root : Conf.Forest) (str limits : Option (List UInt8)) (input : List UInt8)
+    (h : (nodeParse root str limits input).code < 0) : (nodeParse root str limits input).children = root := by
+  unfold nodeParse at h ⊢
+  cases hacc : parseAccept (some (limits.getD [110, 115])) with
+  | none => rfl
+  | some so =>
+    rw [hacc] at h
+    simp only [] at h ⊢
+    by_cases hn : (parseNode [] str so.1 so.2 (-2) input).code < 0
+    · rw [if_pos hn]
+    · rw [if_neg hn] at h
+      exact absurd h hn
+
 /-- a handler refusal is reported: `mpt_parse_config` returns -0x80 as soon as the handler refuses,
     so nothing is delivered after a refusal -/
 theorem refusal_reported (k : Kind) (cfg : Cfg) (n : Nat) (prev : Nat) (input : List UInt8) :
@@ -157,6 +172,14 @@ example : (parseConfig .pre {} (record none) [] 0 (bytes "a=1\n")).src.reads = 5
 example : (parseNode [.node (bytes "x") none []] none 0xff 0xff (-2) (bytes "a {\n")).code = -16
     ∧ Conf.flat 0 (parseNode [.node (bytes "x") none []] none 0xff 0xff (-2) (bytes "a {\n")).children
         = [(0, bytes "x", none)] := by
+  decide +kernel
+example : (nodeParse [.node (bytes "x") none []] none none (bytes "a {\n")).code = -16
+    ∧ Conf.flat 0 (nodeParse [.node (bytes "x") none []] none none (bytes "a {\n")).children
+        = [(0, bytes "x", none)] := by
+  decide +kernel
+/-- `mpt_node_parse` replaces, `mpt_parse_node` merges -/
+example : Conf.flat 0 (nodeParse [.node (bytes "x") none []] none none (bytes "a=1\n")).children
+    = [(0, bytes "a", some (bytes "1"))] := by
   decide +kernel
 /-- a successful one merges -/
 example : Conf.flat 0 (parseNode [.node (bytes "x") none []] none 0xff 0xff (-2) (bytes "a {\nb=1\n}\n")).children
